@@ -74,6 +74,11 @@ def check_residuals(P, R):
         t = list(dict.fromkeys(p.value_terms()))
         for row in rows_for(f, name):
             pol.check_row(R, "POL.residual", f.key, t, row)
+        # every factor of the residual multiplies (N, m, D z, V y, U x): a quotient changes the mode, not only the scale
+        pi = pol.Pol(P, f, track_inv=True)
+        it = list(dict.fromkeys(pi.value_terms()))
+        inv_atoms = sorted({x for s_, a in it for x in a if x.startswith("1/")})
+        R.check(not inv_atoms, "POL.residual-placement", f.key, "all factors of the residual multiply", "", f"{inv_atoms[:3]} divide(s) in the residual F - N (m + D z + V y + U x)")
 
 
 PRECISIONS = {
